@@ -472,6 +472,12 @@ func modPrefix(e *Expr) string {
 // holds by that argument (nothing to prove), so the loop is cut with it assumed. cont is obtained by running
 // the loop once, symbolically, at the bound variable q.
 
+// library functions whose L0 model is a function of the arguments and touches no state
+var scanPureCallees = map[string]bool{
+	"bytes.Equal": true, "bytes.Compare": true, "github.com/ethereum/go-ethereum/common.FromHex": true,
+	"strings.ToLower": true, "strings.EqualFold": true, "strings.HasPrefix": true, "strings.TrimPrefix": true,
+}
+
 type scanProbe struct {
 	h     *ssa.BasicBlock
 	body  map[*ssa.BasicBlock]bool
@@ -525,10 +531,19 @@ func scanShape(h *ssa.BasicBlock) *ssa.Phi {
 					_ = p // a phi inside the body merges paths of one iteration: fine
 				}
 			case *ssa.Call:
-				bi, ok := x.Call.Value.(*ssa.Builtin)
-				if !ok || (bi.Name() != "len" && bi.Name() != "cap") {
+				if bi, ok := x.Call.Value.(*ssa.Builtin); ok {
+					if bi.Name() != "len" && bi.Name() != "cap" {
+						return nil
+					}
+					break
+				}
+				// a library function with a pure L0 model (a function of its arguments: bytes.Equal, FromHex, ...)
+				callee := x.Call.StaticCallee()
+				if callee == nil || isRepoFn(callee) || !scanPureCallees[callee.String()] {
 					return nil
 				}
+			case *ssa.MakeInterface, *ssa.TypeAssert:
+				return nil
 			default:
 				return nil
 			}
@@ -566,6 +581,10 @@ func (ex *Exec) scanLoopCut(st *State, h *ssa.BasicBlock, prev *ssa.BasicBlock, 
 	// probe one iteration at the bound variable q
 	ex.scanSeq++
 	q := Var(fmt.Sprintf("q$scan%d", ex.scanSeq), v0.T.Sort)
+	freshBefore := map[string]int{}
+	for k, v := range freshCtr {
+		freshBefore[k] = v
+	}
 	pst := st.clone()
 	// quantify over the distance from the start value, so that an element access a[phi+1] of a range loop
 	// (start value -1) reads a[q]: a shape the solvers can match instances against
@@ -590,6 +609,28 @@ func (ex *Exec) scanLoopCut(st *State, h *ssa.BasicBlock, prev *ssa.BasicBlock, 
 		return false
 	}
 	cont := Or(p.cont...)
+	// symbols the library models introduced while probing (a nil flag, a capacity) may differ from iteration to
+	// iteration: they are bound existentially inside the quantifier, not shared by all iterations
+	if vars, _, _, _ := collect([]*Term{cont}); len(vars) > 0 {
+		sub := map[*Term]*Term{}
+		var bound []*Term
+		for _, v := range vars {
+			k := strings.LastIndex(v.Name, "!")
+			if k < 0 {
+				continue
+			}
+			var n int
+			fmt.Sscanf(v.Name[k+1:], "%d", &n)
+			if n > freshBefore[v.Name[:k]] {
+				b := Var("q$ex."+v.Name, v.Sort)
+				sub[v] = b
+				bound = append(bound, b)
+			}
+		}
+		if len(bound) > 0 {
+			cont = Exists(bound, Subst(cont, sub))
+		}
+	}
 	i := Fresh("scan."+phi.Comment, v0.T.Sort)
 	le, lt := BVUle, BVUlt
 	if v0.Signed {
@@ -606,6 +647,14 @@ func (ex *Exec) scanLoopCut(st *State, h *ssa.BasicBlock, prev *ssa.BasicBlock, 
 	} else {
 		st.assume(Forall([]*Term{q}, Implies(And(le(v0.T, q), lt(q, i)), cont)))
 		st.assume(Implies(Neq(i, v0.T), Subst(cont, map[*Term]*Term{q: BVSub(i, one)})))
+	}
+	// the counter (and the number of finished iterations) as instantiation hints for quantified clauses about the loop
+	if w := v0.T.Width(); w == 32 || w == 64 {
+		st.assume(App(fmt.Sprintf("trig%d", w), SBool, i))
+		st.assume(App(fmt.Sprintf("trig%d", w), SBool, BVAdd(i, one)))
+		if v0.T.Op == "const" {
+			st.assume(App(fmt.Sprintf("trig%d", w), SBool, BVSub(i, v0.T)))
+		}
 	}
 	fr.Regs[phi] = VBV{i, v0.Signed}
 	ex.note(st, "pure scan loop in %s cut with its canonical invariant", fnName(fr.Fn))
